@@ -96,7 +96,7 @@ pub proof fn lemma_slot_addr_injective(pages: int, s1: int, s2: int)
 }
 
 // ---- TombstoneLog::open: tail slot from the global byte offset of the newest tombstone
-//@region foyer-storage/src/engine/block/tombstone.rs :: impl~^impl TombstoneLog$/fn open name=open_tail_slot start=/let latest_tombstone_page = latest_tombstone_offset \/ PAGE;/ end=/\(latest_tombstone_offset - pages_before_latest_tombstone \* PAGE\) \/ Tombstone::SERIALIZED_LEN\s*\n\s*\};/ sub=@Self::SLOTS_PER_PAGE@TombstoneLog::SLOTS_PER_PAGE@
+//@region foyer-storage/src/engine/block/tombstone.rs :: impl~^impl TombstoneLog$/fn open name=open_tail_slot start=/let latest_tombstone_page = / stmts=2 sub=@Self::SLOTS_PER_PAGE@TombstoneLog::SLOTS_PER_PAGE@
 //@head
 fn open_tail_slot(latest_tombstone_offset: usize) -> (r: usize)
     ensures r == latest_tombstone_offset / 16, // @label newest_slot_is_global_offset_over_16
@@ -104,7 +104,7 @@ fn open_tail_slot(latest_tombstone_offset: usize) -> (r: usize)
     latest_tombstone_slot
 //@end
 
-//@region foyer-storage/src/engine/block/tombstone.rs :: impl~^impl TombstoneLog$/fn open name=open_next_slot start=/let slot = latest_tombstone_slot \+ 1;/ end=/let slot = latest_tombstone_slot \+ 1;/
+//@region foyer-storage/src/engine/block/tombstone.rs :: impl~^impl TombstoneLog$/fn open name=open_next_slot start=/let slot = / stmts=1
 //@head
 fn open_next_slot(latest_tombstone_slot: usize) -> (r: usize)
     requires latest_tombstone_slot < usize::MAX,
@@ -151,7 +151,7 @@ pub proof fn lemma_newest_slot_props(page: Seq<u8>, i: int)
     }
 }
 
-//@region foyer-storage/src/engine/block/tombstone.rs :: impl~^impl TombstoneLog$/fn open name=open_scan_page start=/let mut seq = 0;/ end=/for \(slot, buf\) in buffer\.chunks_exact/ rules=chunks-enumerate
+//@region foyer-storage/src/engine/block/tombstone.rs :: impl~^impl TombstoneLog$/fn open name=open_scan_page start=/let mut seq = / stmts=3 rules=chunks-enumerate
 //@head
 fn open_scan_page(buffer: PageBuf, base: usize, offset: usize, recovered: &mut Vec<(Tombstone, usize)>)
     requires
@@ -218,7 +218,7 @@ pub fn verif_write_tombstone(tombstone: &Tombstone, buffer: &mut PageBufferT, st
 pub struct TombstoneLogInner { pub buffer: PageBufferT, pub slot: usize }
 
 impl TombstoneLog {
-//@region foyer-storage/src/engine/block/tombstone.rs :: impl~^impl TombstoneLog$/fn append name=append_one start=/let slot = inner\.slot;/ end=/inner\.slot \+= 1;/ rules=de-async sub=@tombstone\.write\(&mut inner\.buffer\.as_mut\(\)\[start\.\.end\]\)@verif_write_tombstone(tombstone, &mut inner.buffer, start, end)@
+//@region foyer-storage/src/engine/block/tombstone.rs :: impl~^impl TombstoneLog$/fn append name=append_one start=/for tombstone in tombstones \{/ body=1 rules=de-async sub=@tombstone\.write\(&mut inner\.buffer\.as_mut\(\)\[(.*?)\.\.(.*?)\]\)@verif_write_tombstone(tombstone, &mut inner.buffer, \1, \2)@
 //@head
     fn append_one(&self, inner: &mut TombstoneLogInner, tombstone: &Tombstone) -> (r: Result<()>)
         requires
